@@ -258,6 +258,40 @@ Proof.
   apply (sweep_kept cap timeout s now a r); auto.
 Qed.
 
+(* BEING WRITTEN TO COUNTS AS BEING SEEN.  After any history, on an open connection: a client that has a queue and is
+   written to at now1 -- whenever its queue was last fetched, e.g. never since, because the client is between two
+   carriers -- keeps THE SAME queue (identity), with the packet at its tail when there was room, not closed, at every
+   sweep earlier than now1 + timeout.  (WriteTo refreshes last-seen exactly as OutgoingQueue does.) *)
+Theorem C17_written_client_kept_at_sweep : forall cap timeout ops a r p now1 now2,
+  let s := fst (qrun cap timeout ops qc_empty) in
+  let s1 := fst (qstep cap timeout s (QWrite p a now1)) in
+  let s2 := fst (qstep cap timeout s1 (QSweep now2)) in
+  qclosed s = false -> rec_of (clients s) a = Some r -> (now2 - now1 < timeout)%Z ->
+  let q' := if length (c_q r) <? cap then c_q r ++ [p] else c_q r in
+  rec_of (clients s2) a = Some (mkrec (c_addr r) now1 (c_qid r) q') /\ out_q (clients s2) a = q' /\
+  ~ In (c_qid r) (map fst (dead (clients s2))).
+Proof.
+  intros cap timeout ops a r p now1 now2 s s1 s2 Hopen Hrec Hlt q'.
+  pose proof (C17_queue_step_per_addr cap timeout ops (QWrite p a now1) a) as [Hstep _].
+  fold s in Hstep. fold s1 in Hstep. unfold rec_after in Hstep. rewrite Hopen, N.eqb_refl, Hrec in Hstep.
+  cbn [touch_rec] in Hstep.
+  assert (Hr1 : rec_of (clients s1) a = Some (mkrec (c_addr r) now1 (c_qid r) q')).
+  { rewrite Hstep. unfold q', set_q, set_seen. cbn [c_q c_addr c_seen c_qid].
+    destruct (length (c_q r) <? cap); reflexivity. }
+  assert (Hs1 : s1 = fst (qrun cap timeout (ops ++ [QWrite p a now1]) qc_empty)).
+  { rewrite qrun_app. fold s. unfold s1. cbn [qrun]. destruct (qstep cap timeout s (QWrite p a now1)). reflexivity. }
+  pose proof (C17_queue_kept_with_contents cap timeout (ops ++ [QWrite p a now1]) now2 a
+                (mkrec (c_addr r) now1 (c_qid r) q')) as Hk.
+  cbv zeta in Hk. rewrite <- Hs1 in Hk. fold s2 in Hk. apply Hk; [exact Hr1 | exact Hlt].
+Qed.
+
+Example C17_written_client_kept_at_sweep_witness :
+  let s := fst (qrun 4 10%Z [QOutRecv 7%N 0%Z] qc_empty) in
+  qclosed s = false /\ rec_of (clients s) 7%N = Some (mkrec 7%N 0%Z 0 []) /\
+  rec_of (clients (fst (qstep 4 10%Z (fst (qstep 4 10%Z s (QWrite [1%N] 7%N 9%Z))) (QSweep 15%Z)))) 7%N
+    = Some (mkrec 7%N 9%Z 0 [[1%N]]).
+Proof. vm_compute. repeat split; reflexivity. Qed.
+
 (* a sweep removes a record, or closes a queue, only when now - last_seen >= timeout (the code's
    comparison); a record that is not kept unchanged is removed; a sweep creates or alters nothing *)
 Theorem C17_queue_not_removed_early : forall cap timeout ops now,
